@@ -72,13 +72,13 @@ NOT_YET = "static clauses designed in DESIGN.md section 4 but the rule is not bu
 
 # clauses added in the ninth and tenth rounds of seeded changes (DESIGN.md, end of section 4)
 ADDED = {
- "C01": "one early success exit (the draft-07 $ref rule); a json.Number is classified as a number whatever its text; every numeric kind classified; annotation sets never counted; contains offered every item from index 0; the classifier never asks IsNil; keyword preparations (pattern, patternProperties, required) independent of one another",
+ "C01": "one early success exit (the draft-07 $ref rule); a json.Number is classified as a number whatever its text; every numeric kind classified; annotation sets never counted; contains offered every item from index 0; the classifier never asks IsNil; keyword preparations (pattern, patternProperties, required) independent of one another; zero-means-missing only for struct instances; annotation set helpers never alias their arguments (round 12)",
  "C02": "one early success exit (the draft-07 $ref rule); the number extractor succeeds for every numeric kind; keyword preparations independent; pointer-token bytes compared only with the ends of the digit range",
- "C03": "a relative $id is refused; the pointer-or-anchor decision is made on the looked-up string and only says 'not empty'; no error overwritten or passed over in a loop; $ref and $dynamicRef resolved independently; an unknown pointer token selects no field; tokens unescaped whenever the pointer contains the escape character; digit-range constants",
+ "C03": "a relative $id is refused; the pointer-or-anchor decision is made on the looked-up string and only says 'not empty'; no error overwritten or passed over in a loop; $ref and $dynamicRef resolved independently; an unknown pointer token selects no field; tokens unescaped whenever the pointer contains the escape character; digit-range constants; the token - singled out only for arrays; the resolver reads the decoded fragment only (round 12)",
  "C04": "no kind but Struct and Pointer tested in the decision to flatten an embedded field; tag options evaluated on five cases; reflect.TypeOf of a possibly nil interface nil-tested; tag-name predicate and tag options evaluated on non-ASCII names and three options",
  "C05": "const decoded without UseNumber; cap() never a length or a condition; shadow copies in MarshalJSON independent of one another; no error passed over in a loop; exclusive keyword pairs refused by presence, not length; the UseNumber retry's own result decides",
  "C06": "the dynamic-scope search is left early only on a hit; a relative $id is refused; $ref and $dynamicRef resolved independently",
- "C07": "no removal from an annotation set (DeleteFunc included); the property lookup hands back the value as stored; annotation sets never counted; every entry of a map instance enumerated; contains offered every item from index 0",
+ "C07": "no removal from an annotation set (DeleteFunc included); the property lookup hands back the value as stored; annotation sets never counted; every entry of a map instance enumerated; contains offered every item from index 0; zero-means-missing only for struct instances; annotation set helpers never alias their arguments (round 12)",
  "C08": "keyword groups run whatever the Go type; no verdict on the exactness of a float conversion; no type-sensitive comparison; wrappers recognised by kind; extractor and classifier cover every numeric kind; every map entry enumerated; the classifier never asks IsNil; struct-field loops run to the last field",
  "C09": "a json.Number is classified as a number whatever its text; tag options evaluated on five cases; tag-name predicate evaluated on non-ASCII names",
  "C10": "the ok result tested before a (pointer, ok) result is used; every named type on the pointer walk recorded; make sizes not negative; no impossible NaN-and-Inf conjunction; reflect.TypeOf of a possibly nil interface nil-tested",
@@ -87,7 +87,7 @@ ADDED = {
  "C14": "a rendering of an element attribute used as a map key in a randomised iteration is judged like the attribute; struct-field loops run to the last field; exclusive keyword pairs refused by presence",
  "C15": "no error passed over or overwritten in a loop; wrappers recognised by kind; property lookup hands back the value as stored",
  "C16": "tag options evaluated on five cases; reflect.TypeOf of a possibly nil interface nil-tested; tag options evaluated on three options",
- "C17": "a relative $id is refused; the pointer-or-anchor decision is made on the looked-up string; no error overwritten in a loop; an unknown pointer token selects no field; tokens unescaped whenever escaped; digit-range constants",
+ "C17": "a relative $id is refused; the pointer-or-anchor decision is made on the looked-up string; no error overwritten in a loop; an unknown pointer token selects no field; tokens unescaped whenever escaped; digit-range constants; the token - singled out only where the value walked is an array or slice; the resolver reads url.URL.Fragment, never RawFragment or EscapedFragment() (round 12)",
  "C18": "every entry of a map instance enumerated; keyword preparations independent; the UseNumber retry's own result decides",
  "C19": "the duplicate scan covers the whole list from its first entry on every path; the listed pass runs to the end; cap() never a length or condition; make sizes not negative",
  "C20": "no error overwritten in a loop (tree check); cap() never a length or a condition",
@@ -99,7 +99,7 @@ def main():
         if pid not in CLAIMED: continue
         tech, text, ref = CLAIMED[pid]
         if pid in ADDED:
-            text = text.rstrip() + " Added after seeded rounds 9-11 (necessary conditions, same status): " + ADDED[pid] + "."
+            text = text.rstrip() + " Added after seeded rounds 9-12 (necessary conditions, same status): " + ADDED[pid] + "."
         checks.append({
             "property_id": pid,
             "quick_cmd": f"/verif/bin/jscheck -prop {pid} -tier quick",
